@@ -69,3 +69,40 @@ Theorem C04_group_catch_all : forall s g x ms, g_mw x ++ ms <> [] ->
      {| rr_host := g_host x; rr_method := NF; rr_path := g_prefix x ++ ["/"; "*"]%char; rr_target := t |}].
 Proof. exact group_catch_all. Qed.
 Print Assumptions C04_group_catch_all.
+
+(* ---- tie to the source by proof: Group.Add / Group.Use / Group.Group, translated statement by statement from group.go on
+   every run (Gen/Src_group.v, language Base/GoLoop.v; middleware slices are VALUES - which middlewares a chain holds, not
+   whether two slices share memory).  They register what [step] says: a route added through a group goes to echo.add under the
+   group's host and prefix + path with the chain "the group's middleware at that instant, then the route-level middleware"
+   (C04_chain above), leaving the group's own list as it was; Use appends and registers the two catch-all not-found routes
+   exactly when the group then has middleware (C04_group_catch_all); a sub-group takes the parent's host, prefix + its own
+   prefix, and - through its own Use - the parent's middleware followed by its own. *)
+From Coq Require Import ZArith.
+From Echo Require Import Base.GoLoop Gen.Src_group Http.GroupSrc.
+
+Theorem C04_source_group_add : forall host echo pre gm ms method handler p,
+  let st := gstate host echo pre gm [("method"%string, method); ("path"%string, VS p); ("handler"%string, handler); ("middleware"%string, VL ms); ("m"%string, VZ 0%Z)] in
+  let '(st', _) := GoLoop.run gsym gpred src_group_add_results src_group_add st in
+  events st' = [("g.echo.add"%string, [host; method; VS (pre ++ p); handler; VL (gm ++ ms)])] /\
+  GoLoop.get (fields st') "g.middleware" = VL gm.
+Proof. exact src_group_add_spec. Qed.
+Print Assumptions C04_source_group_add.
+
+Theorem C04_source_group_use : forall host echo pre gm ms,
+  let st := gstate host echo pre gm [("middleware"%string, VL ms)] in
+  let '(st', _) := GoLoop.run gsym gpred src_group_use_results src_group_use st in
+  GoLoop.get (fields st') "g.middleware" = VL (gm ++ ms) /\
+  events st' = match (gm ++ ms)%list with
+               | [] => []
+               | _ => [("g.RouteNotFound"%string, [VS []; VZ 1000%Z]); ("g.RouteNotFound"%string, [VS (lit "/*"); VZ 1000%Z])]
+               end.
+Proof. exact src_group_use_spec. Qed.
+Print Assumptions C04_source_group_use.
+
+Theorem C04_source_group_group : forall host echo pre gm ms p,
+  let st := gstate host echo pre gm [("prefix"%string, VS p); ("middleware"%string, VL ms); ("m"%string, VZ 0%Z)] in
+  let '(st', _) := GoLoop.run gsym gpred src_group_group_results src_group_group st in
+  GoLoop.get (fields st') "sg.host" = host /\ GoLoop.get (fields st') "sg.prefix" = VS (pre ++ p) /\ GoLoop.get (fields st') "sg.echo" = echo /\
+  events st' = [("sg.Use"%string, [VL (gm ++ ms)])] /\ GoLoop.get (fields st') "g.middleware" = VL gm.
+Proof. exact src_group_group_spec. Qed.
+Print Assumptions C04_source_group_group.
